@@ -757,6 +757,7 @@ func runC14(c *Ctx) {
 	ruleOptsPointerFresh(c)
 	ruleXtextDecodesEveryPlus(c)
 	rulePathBytesPassThrough(c)
+	ruleParserCursor(c) // the parameters that follow the path reach parseArgs as they were sent
 	ruleZeroOptions(c)
 	ruleSetOptionsRendered(c)
 	ruleEhloKeys(c)
